@@ -326,6 +326,16 @@ def _run(w, plan):
             cache_versions.append((len(sim.log), v, gv))
 
     sim.after_event.append(snap_cache)
+    # ... and whenever the client writes: several answers can be merged inside one event, and what a request was routed by
+    # is the cache as it stood when its frame went out, which may be gone again by the end of that event
+    _record = sim.record
+
+    def record_and_snap(kind, *a):
+        if kind == "c_write":
+            snap_cache()
+        return _record(kind, *a)
+
+    sim.record = record_and_snap
 
     on_call_ops = {}
     for o in plan["ops"]:
@@ -982,6 +992,8 @@ def _check_c08_invalidation(w, res, calls, APIKEY):
         wd = c["w"]
         if "routed_topics_at_done" not in c:
             continue
+        if wd.ok is False and wd.err in ("TypeError", "AttributeError"):
+            continue  # an error code no broker sends for this API (coordinator errors on a produce ...) derailed the handling
         key = APIKEY[c["kind"]]
         # only when no other call of this API was outstanding meanwhile: then every answer in the window is this call's
         if any(o is not c and o["kind"] == c["kind"] and o["seq"] <= wd.seq and (not o["w"].fires or o["w"].seq >= c["seq"]) for o in calls.values()
